@@ -75,6 +75,40 @@ static Reg r_zwrite("z.write", [](const std::vector<std::string> &a) -> std::str
   return "ok " + hex(file) + " " + take_trace();
 });
 
+// z.writerand <gzip|bzip2> <seed> <total bytes> <max write size> -> ok <path of the file> <bytes written> <crc32 of the data> <trace>
+// incompressible pseudo-random data in writes of 1..max bytes (the compressed output then crosses the 4 KiB staging
+// buffer at every alignment); the caller expands the file with an independent decoder and removes it
+#include <zlib.h>
+static Reg r_zwriterand("z.writerand", [](const std::vector<std::string> &a) -> std::string {
+  if (a.size() != 4) return "bad-op";
+  util::WriteCompressed::Compression c = a[0] == "gzip" ? util::WriteCompressed::GZIP : util::WriteCompressed::BZIP;
+  unsigned long long seed = strtoull(a[1].c_str(), NULL, 10);
+  size_t total = strtoul(a[2].c_str(), NULL, 10), maxw = strtoul(a[3].c_str(), NULL, 10);
+  if (!maxw) maxw = 1;
+  std::string path = "/verif/.cache/tmp/pvzrand-" + a[0] + "-" + a[1] + "-" + a[2];
+  int fd = open(path.c_str(), O_CREAT | O_TRUNC | O_WRONLY, 0644);
+  if (fd < 0) return "ERR:open";
+  take_trace();
+  unsigned long crc = crc32(0L, Z_NULL, 0);
+  unsigned long long x = seed * 6364136223846793005ULL + 1442695040888963407ULL;
+  try {
+    util::WriteCompressed w(fd, c);
+    std::string chunk;
+    size_t done = 0;
+    while (done < total) {
+      x = x * 6364136223846793005ULL + 1442695040888963407ULL;
+      size_t n = 1 + (size_t)((x >> 33) % maxw);
+      if (n > total - done) n = total - done;
+      chunk.resize(n);
+      for (size_t i = 0; i < n; ++i) { x = x * 6364136223846793005ULL + 1442695040888963407ULL; chunk[i] = (char)(x >> 56); }
+      crc = crc32(crc, reinterpret_cast<const Bytef *>(chunk.data()), (uInt)n);
+      w.write(chunk.data(), n);
+      done += n;
+    }
+  } catch (const std::exception &) { return "ERR:exception " + take_trace(); }
+  return "ok " + path + " " + std::to_string(total) + " " + std::to_string(crc) + " " + take_trace();
+});
+
 // z.read <sched|-> <amounts csv> <hexblob>  -> ok <hex bytes> <returned counts csv> [ERR:kind] <trace>
 static Reg r_zread("z.read", [](const std::vector<std::string> &a) -> std::string {
   std::string blob;
